@@ -1137,9 +1137,13 @@ def do_lift(code, d, rec):
         out = []
         last = 0
         n = 0
+        ret_text = 'return'
+        if 'tail' in rest:
+            # the loop body uses `?`: the lifted function returns the enclosing function's Result, `continue` leaves it with <tail>
+            ret_text = 'return ' + rest[rest.index('tail') + 1]
         for mm in re.finditer(r'\bcontinue\b', bm):
             out.append(body[last:mm.start()])
-            out.append('return')
+            out.append(ret_text)
             last = mm.end()
             n += 1
         out.append(body[last:])
